@@ -6,7 +6,7 @@ EXTENDS Prefixed
 M8 == <<2, 2, 2, 2, 2, 2, 2, 2>>
 Paths3 == { <<>>, << <<>> >>, << <<0>> >>, << <<2>> >>, << <<0>>, <<2>> >>, << <<0, 2>> >>,
             << M8 >>, << M8, <<2>> >>, << <<2, 2>> >> }
-Keys3  == { <<>>, <<0>>, <<2>>, <<0, 1, 2>>, <<2, 2>> }
+Keys3  == { <<>>, <<0>>, <<1>>, <<2>>, <<0, 1, 2>>, <<2, 2>> }     \* <<1>> lies in the gap below the upper bound of <<0,2,2,2>>
 
 (* B = 256 with the bytes 0x00, 0x01, 0xFF: raw keys are real bytes *)
 Paths256 == { <<>>, << <<>> >>, << <<0>> >>, << <<1>> >>, << <<255>> >>, << <<0>>, <<1>> >>,
@@ -15,7 +15,7 @@ Paths256 == { <<>>, << <<>> >>, << <<0>> >>, << <<1>> >>, << <<255>> >>, << <<0>
    <<0,1,0>> spells the raw prefix of namespace <<0>> when used through the empty path *)
 Keys256  == { <<>>, <<0>>, <<255>>, <<0, 1, 1>>, <<0, 1, 0>>, <<0, 1, 255>> }
 PathsQ   == { <<>>, << <<>> >>, << <<0>> >>, << <<255>> >>, << <<0>>, <<1>> >>, << <<0>>, <<255>> >>, << <<255, 255>> >> }
-KeysQ    == { <<>>, <<0>>, <<255>>, <<0, 1, 1>>, <<0, 1, 0>> }
+KeysQ    == { <<>>, <<0>>, <<1>>, <<255>>, <<0, 1, 1>>, <<0, 1, 0>> }     \* <<1>>: below the upper bound <<0,2,0>> of <<0,1,255>>
 V1 == { <<7>> }
 V2 == { <<7>>, <<8>> }
 =============================================================================
